@@ -286,6 +286,19 @@ class LabReplay:
             self.step(st, pre_key, pre_j, ev, post_j, post_key, idx)
         self.final_recheck()
 
+    def eps_of(self, ev):
+        """relative uncertainty an operation driven by a stated concentration introduces: the library rounds the parsed
+        concentration to its quantum in base units (quantum / concentration), capped at 1e-3"""
+        cs = []
+        try:
+            if ev["op"] in ("dilute", "create_solution_from") and "t" in ev:
+                cs.append(self.inst.conc_base(rat(ev["t"]), ev["nu"], ev["du"]))
+            elif ev["op"] == "create_solution" and "c" in ev.get("given", ""):
+                cs += [self.inst.conc_base(rat(t), nu, du) for t, nu, du in zip(ev["conc"], ev["nu"], ev["du"])]
+        except Exception:
+            return 0.0
+        return min(1e-3, max([self.P.quantum / abs(float(c)) for c in cs if c != 0] or [0.0]))
+
     def step(self, st, pre_key, pre_j, ev, post_j, post_key, idx):
         objs = st["objs"]
         k = st["depth"] + 1
@@ -298,6 +311,8 @@ class LabReplay:
         ck = (ev["op"], ev.get("cls"), ev["res"])
         self.by_class[ck] = self.by_class.get(ck, 0) + 1
         ctx = dict(objs=objs, ev=ev, out=out, spec_pre=spec_pre, spec_post=spec_post, k=k, pre_key=pre_key, st=st)
+        eps = max(st.get("eps", 0.0), self.eps_of(ev))
+        self.P.extra_rel = 2 * eps
         for mon in (self.mon_c04, self.mon_c03, self.mon_c01, self.mon_c02, self.mon_c07, self.mon_c10,
                     self.mon_c11, self.mon_c17, self.mon_c19, self.mon_c05, self.mon_c12):
             try:
@@ -310,6 +325,7 @@ class LabReplay:
                             f"{out.call}: observing the result raised {type(e).__name__}: {e}", ev, pre_key)
         # does the implementation follow the specification on this transition?
         matched = self.conforms(ctx)
+        self.P.extra_rel = 0.0
         if matched:
             self.counts["matched"] += 1
             if post_key not in self.states:
@@ -320,6 +336,7 @@ class LabReplay:
                                          "inexact": st.get("inexact", False) or ev["op"] in ("dilute", "create_solution", "create_solution_from"),
                                          # a take-everything transfer leaves quantum / available of what was there (see mon_c02):
                                          # the emptied well holds a float residue, not nothing
+                                         "eps": eps,
                                          "residue": st.get("residue", False) or (ev["op"] == "transfer" and ev.get("cls") == "boundary" and ev["res"] == "ok")}
                 self.counts["states_built"] += 1
         else:
@@ -553,7 +570,7 @@ class LabReplay:
                                 "U": self.inst.amount_store_scale("E"), "g": self.inst.base_scale("g")}[u])
                     avail = float(measure(pre["c"], u)) * su
                     if avail > 0:
-                        f = 4 * self.P.quantum / avail
+                        f = 4 * self.P.quantum / avail + getattr(self.P, "extra_rel", 0.0)
                         slack = {s_: f * self.P.exp_amount(s_, x) for s_, x in pre["c"].items()}
                         slack["vol"] = f * self.P.exp_vol(pre["vol"])
                 d = self.P.well_diff(ws[i - 1], ctx["spec_post"][n]["w"][i - 1], ctx["k"], slack=slack)
